@@ -9,7 +9,7 @@
    holds for snapshots, which is not proved). The rest is decided on every run by the lock-step co-simulation
    together with the monitors run on the implementation's own observations. *)
 From RaftV Require Import Cluster.World Cluster.Statements Proofs.RVSpec Proofs.AESpec Proofs.SnapSpec Proofs.ChunkSpec.
-From RaftV Require Import Proofs.IndexMono.
+From RaftV Require Import Proofs.IndexMono Proofs.IndexOrder.
 Open Scope N_scope.
 
 (* cluster level, EVERY schedule (snapshots, InstallSnapshot, membership changes, crashes and restarts of other nodes
@@ -21,6 +21,15 @@ Theorem C11_applied_index_and_boundary_never_move_backwards : forall ids boot et
     n_applied n1 <= n_applied n2 /\ n_lii n1 <= n_lii n2.
 Proof. exact run_applied_lii_mono. Qed.
 Print Assumptions C11_applied_index_and_boundary_never_move_backwards.
+
+(* cluster level, EVERY schedule and every reachable node (frozen nodes, crash, restart, membership changes, the restore
+   path of InstallSnapshot included): the applied index never exceeds the commit index.  (The snapshot boundary may
+   transiently exceed both: InstallSnapshot records lastIncludedIndex when the last chunk is closed, before the state
+   machine has caught up - lii_above_applied_reachable in Proofs/IndexOrder.v; the code does the same.) *)
+Theorem C11_applied_never_exceeds_commit : forall ids boot et ld ls n,
+  In n (w_nodes (run (init_world ids boot et ld) ls)) -> n_applied n <= n_commit n.
+Proof. exact index_order_ac. Qed.
+Print Assumptions C11_applied_never_exceeds_commit.
 
 (* one step, every world, every label: the commit index, the applied index and the snapshot boundary of a node do not
    move backwards, unless the node is crashed / restarted, or it installs (restore path) a snapshot whose index lies
